@@ -11,8 +11,18 @@ import itertools
 from mc.core import Check, h
 from mc.vloop import World
 
-YIELDABLES = ["F0", "F1", "LIST", "DICT", "NONE", "NATIVE", "SUB", "F0AGAIN", "CF"]
-SIMPLE = [("log",)] + [("y", e) for e in YIELDABLES] + [("ret",), ("raise",), ("ifret",), ("cvset",)]
+YIELDABLES = ["F0", "F1", "LIST", "DICT", "NONE", "NATIVE", "SUB", "F0AGAIN", "CF", "AW"]
+SIMPLE = [("log",)] + [("y", e) for e in YIELDABLES] + [("ret",), ("raise",), ("ifret",), ("cvset",), ("ifretgen",)]
+
+
+class Aw:
+    """An awaitable that is neither a coroutine object nor a Future (a class with __await__)."""
+
+    def __init__(self, f):
+        self.f = f
+
+    def __await__(self):
+        return self.f.__await__()
 CV = contextvars.ContextVar("c37", default="unset")
 
 
@@ -46,6 +56,8 @@ def emit(stmts, gen_form, indent=1, counter=None):
             elif e == "CF":
                 # a concurrent.futures.Future (settled together with F[2]); natively it is awaited through asyncio
                 expr = "CF" if gen_form else "asyncio.wrap_future(CF)"
+            elif e == "AW":
+                expr = "Aw(F[2])"
             elif e == "NATIVE":
                 expr = "native(F[2])"
             else:
@@ -59,6 +71,10 @@ def emit(stmts, gen_form, indent=1, counter=None):
         elif s[0] == "ifret":
             out.append(pad + "if flag:")
             out.append(pad + "    return ('early', %d)" % k)
+        elif s[0] == "ifretgen":
+            # the legacy spelling of an early return in a decorated generator
+            out.append(pad + "if flag:")
+            out.append(pad + ("    raise gen.Return(('early', %d))" if gen_form else "    return ('early', %d)") % k)
         elif s[0] == "try":
             _, body, variant, handler = s
             out.append(pad + "try:")
@@ -101,7 +117,7 @@ def compile_pair(stmts):
         ns = {}
         from tornado import gen
         exec(compile(code, "<c37-%s>" % ("gen" if gen_form else "native"), "exec"),
-             {"gen": gen, "asyncio": asyncio, "Err": Err, "CV": CV, "ref_multi": ref_multi}, ns)
+             {"gen": gen, "asyncio": asyncio, "Err": Err, "CV": CV, "ref_multi": ref_multi, "Aw": Aw}, ns)
         fns[gen_form] = ns["prog"]
         src[gen_form] = code
     return fns, src
@@ -181,7 +197,7 @@ def programs(tier):
             if n == 4 and sum(1 for s in p if s[0] == "y") < 2:
                 continue
             progs.append(list(p))
-    inner_stmts = [s for s in simple if s[0] != "ifret"]
+    inner_stmts = [s for s in simple if s[0] not in ("ifret", "ifretgen")]
     inners = [[a] for a in inner_stmts] + [[a, b] for a in inner_stmts for b in inner_stmts
                                            if a[0] == "y" or b[0] in ("raise", "ret")]
     handlers = [[], [("y", "F1")], [("ret",)], [("raise",)]]
